@@ -220,6 +220,39 @@ pub fn observe(case: &Case) -> Result<Obs, PanicInfo> {
             }
             routes.push(("disk/from_path+read_nth_shape".into(), nth_err.map(Err).unwrap_or(Ok(nth))));
             calls += 3 + n as u64;
+            // the complete writers: created by path with a table description, and created again from the description
+            // of that finished data set (Writer::from_path_with_info)
+            if n >= 1 && n <= 3 && libs.iter().map(|s| from_lib(s).shape.n_points()).sum::<usize>() < 2000 {
+                let (p1, p2) = (dir.join(format!("c01w-{}-a.shp", tid)), dir.join(format!("c01w-{}-b.shp", tid)));
+                let res = (|| -> Result<Vec<MRead>, String> {
+                    {
+                        let mut w = shapefile::Writer::from_path(&p1, crate::table::builder()).map_err(|e| format!("from_path: {}", err_kind(&e)))?;
+                        for (i, s) in libs.iter().enumerate() {
+                            crate::bridge::write_pair(&mut w, s, &crate::table::good_row(i)).map_err(|e| format!("write: {}", err_kind(&e)))?;
+                        }
+                    }
+                    let info = shapefile::Reader::from_path(&p1).map_err(|e| format!("Reader::from_path: {}", err_kind(&e)))?.into_table_info();
+                    {
+                        let mut w = shapefile::Writer::from_path_with_info(&p2, info).map_err(|e| format!("from_path_with_info: {}", err_kind(&e)))?;
+                        for (i, s) in libs.iter().enumerate() {
+                            crate::bridge::write_pair(&mut w, s, &crate::table::good_row(i)).map_err(|e| format!("write: {}", err_kind(&e)))?;
+                        }
+                    }
+                    let first = shapefile::read_shapes(&p1).map_err(|e| format!("read first: {}", err_kind(&e)))?;
+                    let second = shapefile::read_shapes(&p2).map_err(|e| format!("read second: {}", err_kind(&e)))?;
+                    if first.len() != second.len() {
+                        return Err(format!("{} shapes in the first data set, {} in the second", first.len(), second.len()));
+                    }
+                    Ok(second.iter().map(from_lib).collect())
+                })();
+                routes.push(("disk/Writer::from_path_with_info+read_shapes".into(), res));
+                calls += 2 * n as u64 + 5;
+                for p in [&p1, &p2] {
+                    for ext in ["shp", "shx", "dbf"] {
+                        let _ = std::fs::remove_file(p.with_extension(ext));
+                    }
+                }
+            }
             let _ = std::fs::remove_file(&path);
             let _ = std::fs::remove_file(path.with_extension("shx"));
         } else {
@@ -905,6 +938,30 @@ fn enumerate_unit(which: Which, t: &Tables, u: &Unit, ctx: &mut Ctx, tick: &dyn 
                     }
                 }
             }
+            // (i b) a long part inside a shape whose whole Z (M) dimension holds one value, except for one vertex
+            //       that holds a value the range does not see (the zero of the other sign, NaN, another no-data)
+            for n in [300usize, 513, 1030, 2100, 4200] {
+                let pi = if fam == Family::Multipoint { 0 } else { 1 };
+                let off = if fam == Family::Multipoint { 3 } else { 0 };
+                for (d, common, odd) in [(2usize, 0.0f64, vec![-0.0f64, f64::NAN]), (2, 7.5, vec![f64::NAN]), (3usize, NO_DATA, vec![-f64::MAX, f64::NAN, -2e39, f64::NEG_INFINITY]), (3, 0.0, vec![-0.0, f64::NAN])] {
+                    if !dims[d] {
+                        continue;
+                    }
+                    let mut base = multi(&[3, n, 2]);
+                    for part in base.parts.iter_mut() {
+                        for p in part.pts.iter_mut() {
+                            p[d] = common;
+                        }
+                    }
+                    for pos in [1usize, n / 2, n - 1] {
+                        for v in &odd {
+                            let mut s = base.clone();
+                            s.parts[pi].pts[off + pos][d] = *v;
+                            go(Case { ty, shapes: vec![s], ndev: 1, fin_mask: 0, disk: false }, ctx);
+                        }
+                    }
+                }
+            }
             // (ii) two long parts, every ordered pair of lengths
             if fam != Family::Multipoint {
                 let ls = [260usize, 300, 1030, 16384, 16390, 20000];
@@ -926,7 +983,7 @@ fn enumerate_unit(which: Which, t: &Tables, u: &Unit, ctx: &mut Ctx, tick: &dyn 
                         go(Case { ty, shapes: vec![multi(&lens)], ndev: 0, fin_mask: 0, disk: false }, ctx);
                     }
                 }
-                for np in [16383usize, 16384, 16385, 20000] {
+                for np in [16383usize, 16384, 16385, 20000, 32767, 32768, 32769, 40000, 65536, 65537] {
                     go(Case { ty, shapes: vec![multi(&vec![2; np])], ndev: 0, fin_mask: 0, disk: false }, ctx);
                 }
             }
@@ -1151,7 +1208,7 @@ pub fn check(which: Which, tier: Tier) -> i32 {
             tier,
             level: "model_checking",
             engine: "E2 structure x deviation enumerator on the real ShapeWriter/ShapeReader",
-            rule: "every structure of the builder grammar (per type: vertex counts, part-length vectors, ring templates x declared roles, patch kinds x lengths) x every file sequence (n=1 for all, n=2,3 ordered tuples over the reduced different-size set) x every deviation set of size <= d from the per-dimension float alphabets; plus, for one type per family, EVERY part length from 2 up to the size bound and (Point, PolylineZ) EVERY record count up to the count bound (d = 0), a size ladder of many-part shapes, and every finalize placement around 1-5 writes; polygons with a unit hole at every position of a 3x3 grid, given in both orientations, translated by offsets {2^27, 2^30+1, 10^9, 2^40, -(10^9+7)}^2; measured multi-vertex shapes with measures [real, no-data, ..] and [no-data, .., real] under every single deviation; sizes crossed with values and structure (a special measure / Z at the start, middle, end of a part of 300..20000 points; every ordered pair of two long parts over {260, 300, 1030, 16384, 16390, 20000}; three long parts of more than 2^16 points in total, an empty part inside such a record, shapes of 16383..20000 parts; thin rings of about 2^14 vertices whose area is smaller than any edge term); (C02) every history over {write a, write b, finalize} up to the fault-history bound x {with, without .shx} x 13 types with every single one-shot fault and every unordered pair of faults (operation k of .shp / .shx fails once): whenever no fault fired in drop, the .shp up to its declared length is well-formed and holds exactly the shapes whose write returned Ok; distinct = hash of all coordinate bit patterns and structure; non-trivial = >=2 records or >=2 parts or >=1 deviation",
+            rule: "every structure of the builder grammar (per type: vertex counts, part-length vectors, ring templates x declared roles, patch kinds x lengths) x every file sequence (n=1 for all, n=2,3 ordered tuples over the reduced different-size set) x every deviation set of size <= d from the per-dimension float alphabets; plus, for one type per family, EVERY part length from 2 up to the size bound and (Point, PolylineZ) EVERY record count up to the count bound (d = 0), a size ladder of many-part shapes, and every finalize placement around 1-5 writes; polygons with a unit hole at every position of a 3x3 grid, given in both orientations, translated by offsets {2^27, 2^30+1, 10^9, 2^40, -(10^9+7)}^2; measured multi-vertex shapes with measures [real, no-data, ..] and [no-data, .., real] under every single deviation; sizes crossed with values and structure (a special measure / Z at the start, middle, end of a part of 300..20000 points; every ordered pair of two long parts over {260, 300, 1030, 16384, 16390, 20000}; three long parts of more than 2^16 points in total, an empty part inside such a record, shapes of 16383..20000, 32767..40000 and 65536 / 65537 parts; a long part inside a shape whose whole Z or M dimension holds one value except for one vertex holding the other zero, NaN or another no-data value; thin rings of about 2^14 vertices whose area is smaller than any edge term); (C02) every history over {write a, write b, finalize} up to the fault-history bound x {with, without .shx} x 13 types with every single one-shot fault and every unordered pair of faults (operation k of .shp / .shx fails once): whenever no fault fired in drop, the .shp up to its declared length is well-formed and holds exactly the shapes whose write returned Ok; distinct = hash of all coordinate bit patterns and structure; non-trivial = >=2 records or >=2 parts or >=1 deviation",
             bounds: json!({
                 "types": 13,
                 "structures_total": nstructs,
